@@ -7,6 +7,7 @@ CONSTANTS
   KeyMode = "term_value"
   HashMode = "code"
   NearPairs = TRUE
+  EqMode = "structural"
   ProvTags = 2
   WideProv = TRUE
 CONSTRAINT Export
